@@ -1,0 +1,41 @@
+//go:build verif
+
+// Contracts for package spi, checked by /verif/govc (comment-only; not part of any normal build).
+
+package spi
+
+//@ func (*regexp.Regexp).MatchString
+//@   trusted
+//@   pure
+//@ func (Storage).*
+//@   trusted
+//@   benign
+
+// ---- C03: every backend call that takes a key name is made only after the name matched the pattern ----
+
+//@ func (wrapper).validateKID
+//@   prop C03
+//@   modifies nothing
+//@   ensures [nil-iff-name-matches] isNilIface(result) <==> w.kidPattern.MatchString(kid)
+
+//@ func (wrapper).GetPrivateKey
+//@   prop C03
+//@   call (Storage).GetPrivateKey #1 requires [name-validated-first] isNilIface(ret(call (wrapper).validateKID #1)) && arg(call (wrapper).validateKID #1, 1) == keyName && arg(2) == keyName && arg(0) == w.wrappedBackend
+//@ func (wrapper).PrivateKeyExists
+//@   prop C03
+//@   call (Storage).PrivateKeyExists #1 requires [name-validated-first] isNilIface(ret(call (wrapper).validateKID #1)) && arg(call (wrapper).validateKID #1, 1) == keyName && arg(2) == keyName && arg(0) == w.wrappedBackend
+//@ func (wrapper).SavePrivateKey
+//@   prop C03
+//@   call (Storage).SavePrivateKey #1 requires [name-validated-first] isNilIface(ret(call (wrapper).validateKID #1)) && arg(call (wrapper).validateKID #1, 1) == kid && arg(2) == kid && arg(0) == w.wrappedBackend
+//@ func (wrapper).DeletePrivateKey
+//@   prop C03
+//@   call (Storage).DeletePrivateKey #1 requires [name-validated-first] isNilIface(ret(call (wrapper).validateKID #1)) && arg(call (wrapper).validateKID #1, 1) == keyName && arg(2) == keyName && arg(0) == w.wrappedBackend
+//@ func (wrapper).NewPrivateKey
+//@   prop C03
+//@   call (Storage).NewPrivateKey #1 requires [name-validated-first] isNilIface(ret(call (wrapper).validateKID #1)) && arg(call (wrapper).validateKID #1, 1) == keyName && arg(2) == keyName && arg(0) == w.wrappedBackend
+
+// The wrapper a key store is built with validates against the pattern it was given.
+//@ func NewValidatedKIDBackendWrapper
+//@   prop C03
+//@   modifies nothing
+//@   ensures [wraps-with-the-pattern] typeOf(result) == wrapper && result.(wrapper).kidPattern == kidPattern && result.(wrapper).wrappedBackend == backend
